@@ -85,9 +85,8 @@ impl<'tcx> CFormatter<'tcx> {
             hir::Type::Slice(hir::Slice::Strs(encoding)) => {
                 self.diplomat_namespace(
                 match encoding {
-                    StringEncoding::UnvalidatedUtf8 => "OptionStringsView".into(),
                     StringEncoding::UnvalidatedUtf16 => "OptionStrings16View".into(),
-                    _ => unimplemented!("Utf8 StringEncoding unsupported")
+                    _ => "OptionStringsView".into(),
                     }
                 ).to_string()
             },
